@@ -3,6 +3,7 @@ package checks
 import (
 	"errors"
 	"fmt"
+	"strings"
 
 	"verifharness/ev"
 	"verifharness/memtr"
@@ -19,6 +20,9 @@ type c02One struct {
 	Arg   int    // bit index within the payload / status / tag / length
 	KG    bool
 	Seed  int64
+	// Pre names what was done on the connection before the handshake: "" |
+	// "guid" (Get System GUID) | "caps" (Get Channel Authentication Capabilities) | "guid+caps"
+	Pre string `json:",omitempty"`
 }
 
 type c02Batch struct {
@@ -47,7 +51,7 @@ func init() {
 					if kg && tier == "quick" && a != int(seed%3) {
 						continue
 					}
-					for _, w := range []string{"creds", "flips", "status", "tag", "trunc", "shorten", "rehandshake"} {
+					for _, w := range []string{"creds", "flips", "flips-used-conn", "status", "tag", "trunc", "shorten", "rehandshake"} {
 						cs = append(cs, ev.MkCase("batch", c02Batch{Auth: a, What: w, KG: kg, Seed: seed}))
 					}
 				}
@@ -79,16 +83,41 @@ func c02Exec(run *ev.Run, c ev.Case) {
 		su := c02Suites[b.Auth]
 		acLen := map[byte]int{1: 20, 2: 16, 3: 32}[su.Auth]
 		icvLen := refbmc.ICVLen(su.Auth)
+		pre := ""
 		one := func(kind string, reply, arg int) {
-			c02Run(run, c02One{Auth: b.Auth, Kind: kind, Reply: reply, Arg: arg, KG: b.KG, Seed: b.Seed})
+			c02Run(run, c02One{Auth: b.Auth, Kind: kind, Reply: reply, Arg: arg, KG: b.KG, Seed: b.Seed, Pre: pre})
 		}
 		switch b.What {
 		case "creds":
-			one("baseline", 0, 0)
-			one("wrong-password", 0, 0)
-			one("wrong-password-prefix", 0, 0)
-			one("wrong-kg", 0, 0)
-			one("username-case", 0, 0)
+			for _, pre = range []string{"", "guid", "caps", "guid+caps"} {
+				one("baseline", 0, 0)
+				one("wrong-password", 0, 0)
+				one("wrong-password-prefix", 0, 0)
+				one("wrong-kg", 0, 0)
+				one("username-case", 0, 0)
+				// the BMC's key differs from the caller's in one of the ways a misconfiguration produces
+				one("kg-bmc-none", 0, 0)
+				one("kg-bmc-is-password", 0, 0)
+				one("kg-bmc-zero", 0, 0)
+				one("kg-console-is-password", 0, 0)
+			}
+			pre = ""
+			for bit := 0; bit < 160; bit++ {
+				one("kg-bit", 0, bit)
+			}
+		case "flips-used-conn":
+			// the same alterations of RAKP 2 and RAKP 4 on a connection that has been used before
+			for bit := 4 * 8; bit < (40+acLen)*8; bit++ {
+				pre = []string{"guid", "guid+caps", "caps"}[bit%3]
+				if bit/8 >= 24 && bit/8 < 40 {
+					pre = []string{"guid", "guid+caps"}[bit%2] // the GUID field, after the GUID was asked for
+				}
+				one("flip", 2, bit)
+			}
+			for bit := 8 * 8; bit < (8+icvLen)*8; bit++ {
+				pre = []string{"guid", "guid+caps", "caps"}[bit%3]
+				one("flip", 3, bit)
+			}
 		case "flips":
 			for bit := 4 * 8; bit < (40+acLen)*8; bit++ {
 				one("flip", 2, bit)
@@ -172,8 +201,40 @@ func c02Run(run *ev.Run, o c02One) {
 	case "username-case":
 		// same password, but the BMC knows the user under another name: RAKP 2 carries an error status
 		cfg.Username = "Admin"
+	case "kg-bmc-none":
+		// the caller insists on a KG, the BMC has two-key login disabled (keys from the password)
+		if !o.KG {
+			opts.KG = rbytes(r, 20)
+		}
+		cfg.KG = nil
+	case "kg-bmc-is-password":
+		if !o.KG {
+			opts.KG = rbytes(r, 20)
+		}
+		cfg.KG = make([]byte, 20)
+		copy(cfg.KG, cfg.Password)
+	case "kg-bmc-zero":
+		if !o.KG {
+			opts.KG = rbytes(r, 20)
+		}
+		cfg.KG = make([]byte, 20)
+	case "kg-console-is-password":
+		// the caller passes the password as KG, the BMC holds a real KG
+		opts.KG = make([]byte, 20)
+		copy(opts.KG, cfg.Password)
+		if !o.KG {
+			cfg.KG = rbytes(r, 20)
+		}
+	case "kg-bit":
+		if !o.KG {
+			cfg.KG = rbytes(r, 20)
+			opts.KG = append([]byte(nil), cfg.KG...)
+		}
+		cfg.KG = append([]byte(nil), cfg.KG...)
+		cfg.KG[o.Arg/8%20] ^= 1 << (o.Arg % 8)
 	}
 	e := NewEnv(cfg, memtr.Window)
+	e.BMC.Handler = refbmc.Chain(refbmc.Fixed(6, 0x37, 0, cfg.GUID[:]), refbmc.Fixed(6, 0x38, 0, []byte{1, 0x80, 0x14, 0x02, 0, 0, 0, 0}))
 	e.T.PoisonFn = func(i int) byte { return byte(i*31 + 7) }
 	ptypeOf := map[int]byte{1: 0x10, 2: 0x12, 3: 0x14}
 	delivered := 0
@@ -232,6 +293,19 @@ func c02Run(run *ev.Run, o c02One) {
 		return m, nil
 	}
 	_ = fakeSID
+	if o.Pre != "" {
+		pc, pcancel := e.LimitCtx(6)
+		if strings.Contains(o.Pre, "guid") {
+			if g, gerr := e.ST.GetSystemGUID(pc); gerr != nil || g != cfg.GUID {
+				run.Violation("C02:harness-pre", fmt.Sprintf("Get System GUID before the handshake: %x err=%v", g, gerr), cs, nil)
+			}
+		}
+		if strings.Contains(o.Pre, "caps") {
+			e.ST.GetChannelAuthenticationCapabilities(pc, &ipmi.GetChannelAuthenticationCapabilitiesReq{ExtendedData: true, Channel: ipmi.ChannelPresentInterface, MaxPrivilegeLevel: ipmi.PrivilegeLevelAdministrator})
+		}
+		pcancel()
+		e.BMC.ResetLog()
+	}
 	if o.Kind == "rehandshake" {
 		// a first handshake on this connection (correct password; variant: a failing one with
 		// yet another password), then a second one with a password the BMC does not hold
@@ -265,7 +339,7 @@ func c02Run(run *ev.Run, o c02One) {
 	var err error
 	pv, st := safe(func() { sess, err = e.ST.NewV2Session(ctx, opts) })
 	run.Eval(1)
-	desc := fmt.Sprintf("auth alg %d kg=%v mutation %s reply %d arg %d", su.Auth, o.KG, o.Kind, o.Reply, o.Arg)
+	desc := fmt.Sprintf("auth alg %d kg=%v mutation %s reply %d arg %d pre %q", su.Auth, o.KG, o.Kind, o.Reply, o.Arg, o.Pre)
 	if pv != nil {
 		run.Violation("C02:panic:"+panicSite(st), fmt.Sprintf("%s: panic %v\n%s", desc, pv, trimStack(st)), cs, nil)
 		return
